@@ -6,6 +6,7 @@ import (
 	"fmt"
 	xast "github.com/cedar-policy/cedar-go/x/exp/ast"
 	"reflect"
+	"regexp"
 	"runtime"
 	"sort"
 	"strings"
@@ -108,11 +109,11 @@ func runConcurrent(payload []*Sx) *Sx {
 	before := snapshot(ps, em, req, vals)
 	// sequential reference results
 	dec0, diag0 := cedar.Authorize(ps, em, req)
-	auth0 := diagString(dec0, diag0)
+	auth0 := diagStringStable(dec0, diag0)
 	authRef := make([]string, len(reqs))
 	for i, q := range reqs {
 		d, dg := cedar.Authorize(ps, em, q)
-		authRef[i] = diagString(d, dg)
+		authRef[i] = diagStringStable(d, dg)
 	}
 	batch0 := batchResultString(ps, em, breq)
 	cedar0 := string(ps.MarshalCedar())
@@ -140,13 +141,13 @@ func runConcurrent(payload []*Sx) *Sx {
 				switch (w + i) % 6 {
 				case 0:
 					d, dg := cedar.Authorize(ps, em, req)
-					if diagString(d, dg) != auth0 {
+					if diagStringStable(d, dg) != auth0 {
 						report("authorize-differs")
 					}
 					for k := range reqs {
 						qi := (w + k) % len(reqs)
 						d, dg := cedar.Authorize(ps, em, reqs[qi])
-						if got := diagString(d, dg); got != authRef[qi] {
+						if got := diagStringStable(d, dg); got != authRef[qi] {
 							report("authorize-differs-on-request-" + fmt.Sprint(qi) + ": concurrent " + got + " sequential " + authRef[qi])
 						}
 					}
@@ -208,7 +209,7 @@ func runConcurrent(payload []*Sx) *Sx {
 	// the shared objects must also still answer as before once everything is quiet again
 	for i, q := range reqs {
 		d, dg := cedar.Authorize(ps, em, q)
-		if got := diagString(d, dg); got != authRef[i] {
+		if got := diagStringStable(d, dg); got != authRef[i] {
 			problems = append(problems, "authorize-after-concurrent-use-differs-on-request-"+fmt.Sprint(i))
 		}
 	}
@@ -229,4 +230,12 @@ func runConcurrent(payload []*Sx) *Sx {
 		}
 	}
 	return out
+}
+
+// diagStringStable is diagString with the one message that legitimately varies from run to run cut short: for `x in [a, b, ..]` with
+// several non-entity members the type error names whichever member map iteration meets first (known finding F23 of C14, decided there).
+var anyEntityGot = regexp.MustCompile("expected \\(entity of type `any_entity_type`\\), got [^\"]*")
+
+func diagStringStable(dec cedar.Decision, diag cedar.Diagnostic) string {
+	return anyEntityGot.ReplaceAllString(diagString(dec, diag), "expected (entity of type `any_entity_type`), got ...")
 }
